@@ -29,7 +29,7 @@ type C02Scenario struct {
 	AcceptAll   bool     `json:"accept_all,omitempty"` // every header's type-level Verify accepts anything
 }
 
-var c02Kinds = []string{"gap", "dup", "swap", "nil", vh.AdvForged, vh.AdvForked, vh.AdvWrongChain, vh.AdvTimeRegress, vh.AdvFuture, vh.AdvBadValidate, "below", "below_late"}
+var c02Kinds = []string{"gap", "dup", "swap", "nil", vh.AdvForged, vh.AdvForked, vh.AdvWrongChain, vh.AdvTimeRegress, vh.AdvFuture, vh.AdvBadValidate, "below", "below_late", "future_near", "future_edge"}
 
 func genC02(t *rapid.T) C02Scenario {
 	s := C02Scenario{
@@ -92,6 +92,20 @@ func c02Build(s C02Scenario) (tr *vh.Header, in []*vh.Header) {
 			in[p] = nil
 		case "below":
 			in[p] = c.At(1 + uint64(p)%s.TrustedH)
+		case "future_near":
+			// beyond the clock-drift allowance by less than the allowance itself
+			if in[p] != nil {
+				b := in[p].Clone()
+				b.T = vh.Epoch.UnixNano() + int64(header.VerifClockDrift()) + int64(1+(i*7+p)%9)*1_000_000_000
+				in[p] = b.Seal()
+			}
+		case "future_edge":
+			// exactly at the allowance (still acceptable) or one nanosecond beyond it
+			if in[p] != nil {
+				b := in[p].Clone()
+				b.T = vh.Epoch.UnixNano() + int64(header.VerifClockDrift()) + int64((i+p)%2)
+				in[p] = b.Seal()
+			}
 		case "below_late":
 			// at or below the trusted height, but with a later time (so only the height check can refuse it)
 			b := c.At(1 + uint64(p)%s.TrustedH).Clone()
